@@ -247,7 +247,38 @@ let cmd_full (r : rd) : string =
     cfg ^ " " ^ String.concat " " fstr ^ " @ " ^ mach) in
   String.concat " ## " (sem :: parts)
 
-let extra_commands : (string * (rd -> string)) list ref = ref [ ("FULL", cmd_full) ]
+(* CMPW T n {np t*np nr t*nr}*n I k tyidx*k F n {ty nl t*nl nops op*nops}*n
+   compile a real module's functions with the compiler model: answer = code:regs:consts per function *)
+let cmd_cmpw (r : rd) : string =
+  expect r "T";
+  let nt = num r in
+  let types = times nt (fun () ->
+    let np = num r in
+    let ps = times np (fun () -> vt_of (next r)) in
+    let nr = num r in
+    let res = if nr = 1 then Some (vt_of (next r)) else None in
+    { ft_params = ps; ft_result = res }) in
+  expect r "I";
+  let ni = num r in
+  let imports = times ni (fun () -> nat_of_int (num r)) in
+  expect r "F";
+  let nf = num r in
+  let funcs = times nf (fun () ->
+    let ty = nat_of_int (num r) in
+    let nl = num r in
+    let locals = times nl (fun () -> vt_of (next r)) in
+    let nops = num r in
+    let ops = times nops (fun () -> opcode_of_tok (next r)) in
+    ((ty, locals), ops)) in
+  let cm = { cm_types = types; cm_imports = imports; cm_funcs = funcs } in
+  String.concat " " (List.map (fun cf ->
+    match cf with
+    | None -> "FAIL:0:"
+    | Some f -> hex_of_bytes f.cf_code ^ ":" ^ Int64.to_string (int64_of_z f.cf_num_registers) ^ ":"
+                ^ String.concat "," (List.map (fun z -> Int64.to_string (int64_of_z z)) f.cf_constants))
+    (compile_module cm))
+
+let extra_commands : (string * (rd -> string)) list ref = ref [ ("FULL", cmd_full); ("CMPW", cmd_cmpw) ]
 
 let () =
   try
